@@ -16,6 +16,7 @@ scripted schedules, and the end-to-end oracle on the real `gen_coords` (input .g
 import PolyplyVerif.Model.Supply
 import PolyplyVerif.Proofs.Supply
 import PolyplyVerif.Proofs.WalkGiveup
+import PolyplyVerif.Proofs.ComposeFinalCoords
 
 namespace PolyplyVerif.C04
 open PolyplyVerif PolyplyVerif.Supply PolyplyVerif.Walk
@@ -202,5 +203,118 @@ example : V3.sum [((1 : Rat), (0 : Rat), (-2 : Rat)), (-1, 0, 2)] = V3.zero ∧
 example : placeInit (1/2) [⟨false, (0, 0, 0), [(0, (1, 1, 1))]⟩, ⟨true, (5, 5, 5), [(1, (2, 0, 0))]⟩]
     (fun a => if a = 0 then some (9, 9, 9) else none) 0 = some (9, 9, 9) :=
   C04_backmap_frame _ _ _ 0 (by intro r hr hb; simp at hr; rcases hr with rfl | rfl <;> simp_all)
+
+end PolyplyVerif.C04
+
+/-! ## end-to-end composition (appended; helper lemmas and bridge functions: Proofs/ComposeFinalCoords.lean) -/
+
+namespace PolyplyVerif.C04
+open PolyplyVerif PolyplyVerif.Supply PolyplyVerif.Walk
+
+/-! ### composition: the coordinate every atom ends with (C04 ∘ C17 ∘ C06) -/
+
+/-- **C04_final_coordinates.**  For every system whose built molecules are well formed, every rewind depth and
+EVERY schedule of trial outcomes: if the build ends, then for every molecule `j` of the topology (an ignored
+one must carry a position for every residue: `hign`, what `-ign` needs), after
+`update_positions_in_molecules` and `Backmap._place_init_coords` (`Compose.finalCoords`):
+
+* an atom that belongs to no residue flagged `backmap` has exactly the coordinate it had on entry (`c0`, the
+  supplied coordinate; C04_consume gives `backmap = false` exactly to residues supplied atom by atom);
+* an atom `at'` of a residue `n` flagged `backmap` (atom keys distinct inside the residue, the key in no other
+  residue, its name a key of the residue's template `t`) has the coordinate
+  `coord p + fudge · (R · t[name])` with `R = rotMat (angles of the residue)` (C06) and `p` the position
+  identifier the engine/write-back holds for the residue — which EXISTS (`C17_complete`), IS the supplied
+  centre when the residue has one and is not rebuilt (`C04_supplied_written_back`), and is otherwise what
+  the engine holds (the generated position).
+
+Bridges (`Proofs/ComposeFinalCoords.lean`): `coord` interprets position identifiers of the walk model as
+coordinates (arbitrary); `Compose.ResInfo`/`backmapInput`/`toBRes` build the input of `Supply.placeInit`
+from C06's residue description, `Compose.tup` converts C06's vectors to C04's. -/
+theorem C04_final_coordinates (cfg : Cfg) (mols : List Mol) (wfs : AllWF mols) (sched : List Bool)
+    (hdone : (run cfg mols sched (init mols)).phase = .done)
+    (coord : Nat → V3) (fudge : Rat) (T : List (String × Rot.Template Rat))
+    (j : Nat) (m : Mol) (hm : mols[j]? = some m)
+    (hign : m.ignored = true → ∀ n ∈ m.nodes, (m.sup n).isSome = true)
+    (info : Node → Compose.ResInfo) (c0 : Coords) :
+    (∀ a, (∀ n ∈ m.nodes, (info n).backmap = true → a ∉ (info n).atoms.map (·.key)) →
+      Compose.finalCoords fudge T coord mols (run cfg mols sched (init mols)).eng j m info c0 a = c0 a) ∧
+    (∀ n ∈ m.nodes, (info n).backmap = true → ((info n).atoms.map (·.key)).Nodup →
+      ∀ at' ∈ (info n).atoms, (∀ n' ∈ m.nodes, n' ≠ n → at'.key ∉ (info n').atoms.map (·.key)) →
+      ∀ t, Rot.klookup T (info n).template = some t → ∀ v, Rot.tlookup t at'.name = some v →
+      ∃ p, writeBack mols (run cfg mols sched (init mols)).eng j n = some p ∧
+        (∀ s, m.sup n = some s → m.isBuild n = false → p = s) ∧
+        (m.ignored = false → (run cfg mols sched (init mols)).eng j n = some p) ∧
+        Compose.finalCoords fudge T coord mols (run cfg mols sched (init mols)).eng j m info c0 at'.key =
+          some (V3.add (coord p) (V3.smul fudge (Compose.tup ((Rot.rotMat (info n).ang).mulVec v))))) := by
+  refine ⟨fun a h => Compose.final_kept fudge T coord mols _ j m info c0 a h, ?_⟩
+  intro n hn hb hnd at' hat hother t ht v hv
+  have hsome : (writeBack mols (run cfg mols sched (init mols)).eng j n).isSome = true := by
+    cases hig : m.ignored with
+    | false => exact C04_ignore_rest_complete cfg mols wfs sched hdone j m hm hig n hn
+    | true => simpa [writeBack, hm, hig] using hign hig n hn
+  obtain ⟨p, hp⟩ := Option.isSome_iff_exists.mp hsome
+  refine ⟨p, hp, ?_, ?_, Compose.final_placed fudge T coord mols _ j m info c0 n hn hb at' hat hnd hother t ht v hv p hp⟩
+  · intro s hs hbuild
+    have := C04_supplied_written_back cfg mols sched j m n s hm hs hbuild
+    rw [hp] at this
+    exact Option.some.inj this
+  · intro hig
+    simpa [writeBack, hm, hig] using hp
+
+/-- the two models of `_place_init_coords` agree: what C06's model writes for a backmapped residue is the centre
+plus `fudge` times exactly the oriented vectors the bridge hands to C04's model -/
+theorem C04_backmap_models_agree (f : Rat) (T : List (String × Rot.Template Rat)) (r : Rot.Res Rat)
+    (hb : r.backmap = true) (placed : List (Nat × Rot.V3 Rat)) (h : Rot.placeRes f T r = some placed) :
+    placed.map (fun p => (p.1, Compose.tup p.2)) =
+      (Compose.orientedAtoms T r).map (fun kw => (kw.1, V3.add (Compose.tup r.pos) (V3.smul f kw.2))) :=
+  Compose.placeRes_agrees f T r hb placed h
+
+/-- residue data of the instance: residue 1 of molecule 0 was supplied atom by atom (atoms 10, 11, not
+backmapped); every other residue `n` is backmapped with atoms `2n+20` (`A`) and `2n+21` (`B`), turned by a
+quarter turn about z -/
+def exInfo (n : Node) : Compose.ResInfo :=
+  if n = 1 then ⟨false, "T", [⟨10, "A"⟩, ⟨11, "B"⟩], ⟨1, 0, 1, 0, 1, 0⟩⟩
+  else ⟨true, "T", [⟨2 * n + 20, "A"⟩, ⟨2 * n + 21, "B"⟩], ⟨1, 0, 1, 0, 0, 1⟩⟩
+
+def exT : List (String × Rot.Template Rat) := [("T", [("A", ⟨1, 0, 0⟩), ("B", ⟨-1, 0, 0⟩)])]
+def exC0 : Coords := fun a => if a = 10 then some (9, 9, 9) else if a = 11 then some (8, 8, 8) else none
+def exSched : List Bool := [true, true, false, true, true, true, true, true]
+
+theorem exMols_wf : AllWF exMols := by
+  intro j hj m hm
+  have hw : work exMols = [0, 2] := by decide
+  rw [hw] at hj
+  simp at hj
+  rcases hj with rfl | rfl
+  · simp [exMols] at hm; subst hm; exact Proofs.Walk.wfCheck_sound _ (by decide)
+  · simp [exMols] at hm; subst hm; exact Proofs.Walk.wfCheck_sound _ (by decide)
+
+/-- Non-vacuity on the system of C04/C17 (supplied residue, ignored molecule, a rewind in the schedule): the run
+ends; the supplied atom 10 keeps `(9,9,9)`; atom 24 (`A` of the generated residue 2, identifier 2 → centre
+`(2,0,0)`) ends at `(2,0,0) + 1/2 · R(1,0,0) = (2, 1/2, 0)`. -/
+example :
+    (run ⟨2, 80⟩ exMols exSched (init exMols)).phase = .done ∧
+    Compose.finalCoords (1 / 2) exT (fun p => ((p : Rat), 0, 0)) exMols (run ⟨2, 80⟩ exMols exSched (init exMols)).eng 0
+        exMols[0] exInfo exC0 10 = some (9, 9, 9) ∧
+    Compose.finalCoords (1 / 2) exT (fun p => ((p : Rat), 0, 0)) exMols (run ⟨2, 80⟩ exMols exSched (init exMols)).eng 0
+        exMols[0] exInfo exC0 24 = some (2, 1 / 2, 0) := by
+  have hdone : (run ⟨2, 80⟩ exMols exSched (init exMols)).phase = .done := by decide
+  obtain ⟨h1, h2⟩ := C04_final_coordinates ⟨2, 80⟩ exMols exMols_wf exSched hdone (fun p => ((p : Rat), 0, 0)) (1 / 2) exT
+    0 exMols[0] rfl (by decide) exInfo exC0
+  refine ⟨hdone, ?_, ?_⟩
+  · rw [h1 10]
+    · rfl
+    · decide
+  · obtain ⟨p, hp, _, heng, hfin⟩ := h2 2 (by decide) (by decide) (by decide) ⟨24, "A"⟩ (by decide) (by decide)
+      [("A", ⟨1, 0, 0⟩), ("B", ⟨-1, 0, 0⟩)] rfl ⟨1, 0, 0⟩ rfl
+    have hp2 : p = 2 := by
+      have h := heng rfl
+      have h' : (run ⟨2, 80⟩ exMols exSched (init exMols)).eng 0 2 = some 2 := by decide
+      rw [h'] at h
+      exact (Option.some.inj h).symm
+    subst hp2
+    rw [hfin]
+    simp only [exInfo, Rot.rotMat, Compose.tup, V3.add, V3.smul]
+    decide +kernel
 
 end PolyplyVerif.C04
